@@ -296,3 +296,46 @@ Proof.
   - rewrite IH. apply bytes_mem_In in E. split; [auto|]. intros [H|H]; [subst; auto|auto].
   - cbn. rewrite IH; tauto.
 Qed.
+
+(* ---------- membership after put / delete (unique keys) ---------- *)
+Section AMapIn.
+  Context {K V : Type}.
+  Variable eqb : K -> K -> bool.
+  Hypothesis eqb_eq : forall a b, eqb a b = true <-> a = b.
+
+  Lemma In_aput k v (m : list (K * V)) e : NoDup (map fst m) ->
+    (In e (aput eqb k v m) <-> e = (k, v) \/ (In e m /\ fst e <> k)).
+  Proof.
+    intros ND. induction m as [|[k2 v2] r IH]; cbn.
+    - split; [intros [H|[]]; left; auto|intros [H|[[] _]]; left; auto].
+    - inversion ND as [|? ? Hn ND']; subst. destruct (eqb k k2) eqn:E.
+      + apply eqb_eq in E; subst k2. cbn. split.
+        * intros [H|H]; [left; auto|right; split; [right; exact H|]].
+          intros Hk. apply Hn. rewrite <- Hk. apply in_map; exact H.
+        * intros [H|[[H|H] N]]; [left; auto| |right; exact H]. subst e; cbn in N; contradiction.
+      + assert (k <> k2) by (intros ->; rewrite (eqb_refl eqb eqb_eq) in E; discriminate).
+        cbn. rewrite (IH ND'). split.
+        * intros [H0|[H0|[H0 N]]]; [right; split; [left; exact H0|subst e; cbn; congruence]|left; exact H0|right; split; [right; exact H0|exact N]].
+        * intros [H0|[[H0|H0] N]]; [right; left; exact H0|left; exact H0|right; right; split; assumption].
+  Qed.
+
+  Lemma In_adel k (m : list (K * V)) e : NoDup (map fst m) ->
+    (In e (adel eqb k m) <-> In e m /\ fst e <> k).
+  Proof.
+    intros ND. induction m as [|[k2 v2] r IH]; cbn; [tauto|].
+    inversion ND as [|? ? Hn ND']; subst. destruct (eqb k k2) eqn:E.
+    - apply eqb_eq in E; subst k2. split.
+      + intros H. split; [right; exact H|]. intros Hk. apply Hn. rewrite <- Hk. apply in_map; exact H.
+      + intros [[H|H] N]; [subst e; cbn in N; contradiction|exact H].
+    - assert (k <> k2) by (intros ->; rewrite (eqb_refl eqb eqb_eq) in E; discriminate).
+      cbn. rewrite (IH ND'). split.
+      + intros [H0|[H0 N]]; [split; [left; exact H0|subst e; cbn; congruence]|split; [right; exact H0|exact N]].
+      + intros [[H0|H0] N]; [left; exact H0|right; split; assumption].
+  Qed.
+
+  Lemma aput_same k v (m : list (K * V)) : aget eqb k m = Some v -> aput eqb k v m = m.
+  Proof.
+    induction m as [|[k2 v2] r IH]; cbn; [discriminate|].
+    destruct (eqb k k2) eqn:E; [intros H; inversion H; reflexivity|intros H; rewrite IH; auto].
+  Qed.
+End AMapIn.
